@@ -1,6 +1,7 @@
 package keeper
 
 import (
+	"math/big"
 	"strconv"
 
 	assetTypes "github.com/comdex-official/comdex/x/asset/types"
@@ -133,12 +134,13 @@ func (k Keeper) UpdatePriceList(ctx sdk.Context, id, scriptID, rate, twaBatch ui
 }
 
 func (k Keeper) CalculateTwa(ctx sdk.Context, twa types.TimeWeightedAverage, twaBatch uint64) uint64 {
-	var sum uint64
+	sum := new(big.Int)
 	oldTwa := twa.Twa
 	for i := 0; i < int(twaBatch); i++ {
-		sum = sum + twa.PriceValue[i]
+		sum.Add(sum, new(big.Int).SetUint64(twa.PriceValue[i]))
 	}
-	twa.Twa = sum / twaBatch
+	// the mean of uint64 samples always fits in uint64, their sum may not
+	twa.Twa = sum.Quo(sum, new(big.Int).SetUint64(twaBatch)).Uint64()
 
 	if oldTwa != twa.Twa {
 		ctx.EventManager().EmitEvents(sdk.Events{
